@@ -12,7 +12,7 @@ RULE = ('cell = (size in {1,2,4,8}) x (address offset 0..7) x CPSR.E x SCTLR.A x
         '{privileged, unprivileged entry point} = 1536 cells, each exercised through mem_u_get/set, mem_a_get/set and the '
         'unprivileged variants with random data and random surrounding bytes, at addresses inside RAM, at the end of a RAM '
         'device and wrapping at 2^32; oracle = vf/ref/mem.py (value, byte-exact RAM diff, abort kind, DFSR/DFAR) + '
-        'store->load round trip + instruction-fetch endianness; non-trivial = the access is unaligned or big-endian or '
+        'store->load round trip + instruction-fetch endianness; instruction level: store/load pairs of every size and addressing form at offsets 0..7 in both endiannesses on LPAE and non-LPAE configurations (value, bytes in CPSR.E order, no other byte), legacy rotated word loads (LDR / LDRT, all addressing forms), and with the protection unit ON the equivalence of an unaligned access with its individual byte transfers (value, abort, DFAR/DFSR, memory); non-trivial = the access is unaligned or big-endian or '
         'faults; distinct = cell x entry point')
 ASSUMPTIONS = ['vf/ref/mem.py transcribes MemA_with_priv / MemU_with_priv (B2.4.4) for ARMv5..7',
                'MPU/MMU off (protection is C14/C15)']
